@@ -31,6 +31,7 @@ type violation struct {
 	Sched  []string          `json:"sched,omitempty"`
 	Events []string          `json:"events,omitempty"` // expected native event trace
 	CRCPinned bool           `json:"crc_pinned"`
+	OSTrace []string         `json:"os_trace,omitempty"`
 }
 
 type Machine struct {
@@ -97,6 +98,8 @@ type Machine struct {
 	stubsUsed  map[string]int
 	findings   map[string]bool
 	bugs       int
+	osst       *osState
+	osEvents   []osEv
 	cuts       int
 	collisionOnly int
 	nGlobals   int
